@@ -124,7 +124,10 @@ pub fn worker() -> Handler {
             let read_from = |off: (usize, usize)| -> (String, (usize, usize)) {
                 let o = std::fs::read(ipr.root.join("stdout")).unwrap_or_default();
                 let e = std::fs::read(ipr.root.join("stderr")).unwrap_or_default();
-                let s = format!("{}|{}", String::from_utf8_lossy(&o[off.0.min(o.len())..]), String::from_utf8_lossy(&e[off.1.min(e.len())..]).lines().count());
+                // stdout only: diagnostics of asynchronous contexts (process substitutions, background jobs)
+                // may arrive during a later iteration
+                let _ = &e;
+                let s = String::from_utf8_lossy(&o[off.0.min(o.len())..]).into_owned();
                 (s, (o.len(), e.len()))
             };
             // iteration 1 (also the warm-up for lazily created runtime descriptors)
